@@ -12,6 +12,7 @@ open RcVerif RcVerif.Elastic
 structure Conn where
   out : EBuf                 -- `outboundBuffer`
   wire : Bytes := []         -- everything the kernel has accepted for this socket, in order
+  queue : List Bytes := []   -- `outFragQueue`: requests waiting for the write signal, oldest first
   deriving Repr
 
 /-- the leftover computation of `writev` after a short write of `sent` bytes: the slices from the first one that
@@ -58,6 +59,25 @@ def flush (pool : Pool) (c : Conn) (acc : Nat) : Pool × Conn :=
   let off := offered c
   let sent := min acc off.length
   let (pool', o, _) := c.out.discard pool sent
-  (pool', { out := o, wire := c.wire ++ off.take sent })
+  (pool', { c with out := o, wire := c.wire ++ off.take sent })
+
+/-- `EnqueueOutFrag`: the request joins the pending-write queue (and a write signal is posted to the poller) -/
+def enqueue (c : Conn) (req : Bytes) : Conn := { c with queue := c.queue ++ [req] }
+
+/-- the loop of `handleWriteSignal` over the dequeued requests: one vectored write per `iovMax` of them, each with
+    its own number of bytes accepted by the kernel (`accs`, missing = 0) -/
+def writeChunks (pool : Pool) (c : Conn) : Nat → List Bytes → List Nat → Pool × Conn
+  | 0, _, _ => (pool, c)
+  | fuel + 1, bs, accs =>
+    if bs.isEmpty then (pool, c)
+    else
+      let (pool', c') := writev pool c (bs.take Gen.iovMax) (accs.headD 0)
+      writeChunks pool' c' fuel (bs.drop Gen.iovMax) accs.tail
+
+/-- `handleWriteSignal`: the task the poller runs for a posted write signal - everything queued is written, in queue
+    order, behind whatever is already backlogged (the trailing `writev` of the empty rest included) -/
+def writeSignal (pool : Pool) (c : Conn) (accs : List Nat) : Pool × Conn :=
+  let (pool', c') := writeChunks pool { c with queue := [] } (c.queue.length + 1) c.queue accs
+  writev pool' c' [] 0
 
 end RcVerif.ConnIO
